@@ -93,7 +93,7 @@ var newUClientConnection = func(
 	if len(uSpec.InitialPacketSpec.InitPacketNumberLengths) > 0 {
 		ackhandler.SetInitialPacketNumberLengths(
 			s.sentPacketHandler,
-			protocol.PacketNumber(uSpec.InitialPacketSpec.InitPacketNumber),
+			uSpec.InitialPacketSpec.initialPN(),
 			uSpec.InitialPacketSpec.InitPacketNumberLengths,
 		)
 	} else if uSpec.InitialPacketSpec.InitPacketNumberLength != 0 {
